@@ -156,7 +156,7 @@ class MatrixExpression:
     def __rsub__(self, other: float | int | NDArray) -> MatrixExpression:
         """Right subtraction: other - self."""
         rows, cols = self.shape
-        if isinstance(other, (int, float)):
+        if isinstance(other, (int, float, np.number)):
             const = Constant(other)
             result_exprs = [
                 [BinaryOp(const, self._expressions[i][j], "-") for j in range(cols)]
@@ -311,7 +311,7 @@ def _matrix_binary_op(
         left_exprs = left._expressions
 
     # Handle right operand
-    if isinstance(right, (int, float)):
+    if isinstance(right, (int, float, np.number)):
         # Scalar broadcast to all elements
         const = Constant(right)
         right_exprs = [[const for _ in range(cols)] for _ in range(rows)]
@@ -397,7 +397,7 @@ def _matrix_constraint(
 
     constraints: list[Constraint] = []
 
-    if isinstance(right, (int, float)):
+    if isinstance(right, (int, float, np.number)):
         # Scalar broadcast to all elements
         for i in range(rows):
             for j in range(cols):
@@ -957,7 +957,7 @@ class MatrixVariable:
     def __rsub__(self, other: float | int | NDArray) -> MatrixExpression:
         """Right subtraction: scalar - X or array - X."""
         rows, cols = self.shape
-        if isinstance(other, (int, float)):
+        if isinstance(other, (int, float, np.number)):
             const = Constant(other)
             result_exprs = [
                 [BinaryOp(const, self._variables[i][j], "-") for j in range(cols)]
